@@ -22,5 +22,10 @@ Record gofield := mkGF {
   gf_go : string; gf_wire : string; gf_num : Z; gf_label : string; gf_name : string; gf_packed : bool;
   gf_default : option string }.
 
+(* a rule about found-flags in a scan function (translator/cmd/pbfcode): kind "nil" | "error" | "use";
+   flags and iterators are named by the dispatch arm (message variable, field number) *)
+Record frule := mkFR {
+  fr_kind : string; fr_flags : list (string * Z); fr_nil : list (string * Z); fr_info : list string }.
+
 Fixpoint lookup_s {A} (k : string) (l : list (string * A)) : option A :=
   match l with [] => None | (k', a) :: r => if String.eqb k k' then Some a else lookup_s k r end.
